@@ -20,6 +20,8 @@ def register(reg):
     register_prune_rh(reg)
     register_buffer_overapprox(reg)
     register_prune_visibility(reg)
+    register_match_polygonal_field(reg)
+    register_same_point(reg)
 
     def setup(I, env):
         eng = I.eng
@@ -84,7 +86,7 @@ def register(reg):
             return (None, None)
 
         reg.models["scenic.core.distributions:supportInterval"] = support_interval
-        reg.models[f"{P}:matchInRegion"] = lambda I2, pos: (base, None, None)
+        reg.models[f"{P}:matchInRegion"] = lambda I2, pos: (base, None, pos)  # case 1 of the real matcher: the position IS the sampled point
         reg.models["scenic.core.regions:Region.uniformPointIn"] = lambda I2, r: ("uniformPointIn", r)
         reg.models[f"{P}:percentagePruned"] = lambda I2, a, b: None
 
@@ -806,6 +808,8 @@ def register_prune_visibility(reg):
         conditioned = []
         position.fields["_conditioned"] = position
         position.fields["conditionTo"] = BuiltinFn("conditionTo", lambda v: conditioned.append(v))
+        pir.fields["_conditioned"] = pir  # the sampled point is a Samplable too: a pass may condition it instead of the sum
+        pir.fields["conditionTo"] = BuiltinFn("conditionTo", lambda v: conditioned.append(v))
         obj.fields["position"] = position
         egopos = PObj("PositionDist", tag="ego.position")
         egopos.fields["_conditioned"] = egopos
@@ -909,5 +913,567 @@ def replay_prune_visibility(inputs, clause):
             return (
                 f"ego at height 12 seeing 3 m, 1x1x10 tower `on workspace` with requireVisible True: the scene with the tower at {tuple(round(c, 2) for c in p)} "
                 f"is accepted without pruning, but its base point {tuple(round(c, 2) for c in basept)} is outside the region the pruned program samples from ({region})"
+            )
+    return None
+
+
+# =================================================================================================
+# matchPolygonalField (C08: "compiling with pruning never reports a satisfiable scenario as infeasible")
+#
+# The matcher is handed the heading and the position of EVERY object of the scenario.  Both are random values, and
+# random values refuse `==` (Distribution.__eq__ raises RandomControlFlowError: a program must not branch on them).
+# Whether the heading is "the field read at the position" is a question of IDENTITY of the argument of the field
+# lookup; asking it with `==` makes the compiler refuse any program in which the heading is read from a polygonal
+# field at a point that is not the position object itself (`new Object on R`: the field is read at the base point,
+# the position is base point + contact offset).
+
+
+def register_match_polygonal_field(reg):
+    from pyvc.builtins_model import IdToken
+    from pyvc.values import arith
+
+    D = "scenic.core.distributions"
+    name = "pruning.matchPolygonalField[random-arguments]"
+
+    class RandomValue(IdToken):
+        """A random value (scenic Distribution) as far as the matcher can observe it: it has an identity, and comparing
+        it with `==` / `!=` raises RandomControlFlowError (Distribution._comparisonError, assigned to __eq__/__ne__)."""
+
+        def __init__(self, tag, I):
+            super().__init__(self)
+            self.tag, self.I = tag, I
+
+        def _refuse(self, other):
+            self.I.raise_(repo_class(f"{D}:RandomControlFlowError"), "random values cannot be compared (and control flow cannot depend on them)")
+
+        __eq__ = __ne__ = _refuse
+
+        def __hash__(self):
+            return id(self)
+
+        def __repr__(self):
+            return f"<random value {self.tag}>"
+
+    def setup(I, env):
+        eng = I.eng
+        position = RandomValue("position", I)
+        other = RandomValue("another random point (e.g. the base point of `on R`)", I)
+        shapes = [("(position,)", (position,)), ("(other point,)", (other,)), ("()", ()), ("(position, other point)", (position, other))]
+        k = eng.choose(len(shapes), "arguments of the field lookup: " + " / ".join(s for s, _ in shapes))
+        eng.input_syms.append(("arguments", C.Const(None), shapes[k][0]))
+        field = PObj(repo_class("scenic.core.vectors:PolygonalVectorField"), tag="field")
+        orientation = PObj(repo_class("scenic.core.vectors:VectorMethodDistribution"), tag="field[...]")
+        orientation.fields.update(object=field, arguments=shapes[k][1], kwargs={})
+        yaw = PObj(repo_class(f"{D}:AttributeDistribution"), tag="field[...].yaw")
+        yaw.fields.update(attribute="yaw", object=orientation)
+        heading = yaw
+        lo = hi = 0
+        wrapped = eng.choose(2, "heading = field[...].yaw / field[...].yaw + bounded disturbance")
+        eng.input_syms.append(("disturbance", C.Const(None), bool(wrapped)))
+        if wrapped:
+            noise = Opaque("disturbance")
+            lo, hi = eng.fresh_real("disturbance.lower"), eng.fresh_real("disturbance.upper")
+            eng.assume(compare("<=", lo, hi))
+            heading = PObj(repo_class(f"{D}:OperatorDistribution"), tag="field[...].yaw + disturbance")
+            heading.fields.update(operator="__add__", object=yaw, operands=(noise,))
+            reg.models[f"{D}:supportInterval"] = lambda I2, v: (lo, hi) if v is noise else (None, None)
+        # the decorator plumbing of `VectorField.__getitem__` is not the subject: a method call is recognised by identity
+        reg.models[f"{P}:isMethodCall"] = lambda I2, thing, method: thing is orientation
+        reg.models[f"{P}:isFunctionCall"] = lambda I2, thing, function: False
+        env.vars.update(heading=heading, position=position, _field=field, _match=(k == 0), _lo=lo, _hi=hi)
+
+    def post(I, env, outcome):
+        eng = I.eng
+        if outcome[0] != "return":
+            return  # reported by the engine as <contract>#no-unexpected-exception
+        res = tuple(I.iterate(outcome[1]))
+        eng.check(f"{name}#ensures.result_is_a_triple", len(res) == 3)
+        if len(res) != 3:
+            return
+        if env.vars["_match"]:
+            # the heading IS the field read at this object's position: pruning may use the field's cells
+            eng.check(f"{name}#ensures.field_matched_when_read_at_the_position_itself", res[0] is env.vars["_field"])
+            eng.check(f"{name}#ensures.disturbance_bounds_are_the_support_of_the_disturbance", sv_and(compare("==", res[1], env.vars["_lo"]), compare("==", res[2], env.vars["_hi"])))
+        else:
+            # read anywhere else (or not a single-argument lookup): nothing may be concluded about this object's cells
+            eng.check(f"{name}#ensures.no_field_matched_when_read_elsewhere", res[0] is None)
+
+    reg.add(
+        C.Contract(
+            f"{P}:matchPolygonalField",
+            params=dict(heading=C.Const(None), position=C.Const(None)),
+            setup=setup,
+            post=post,
+            inline=["matchPolygonalField"],
+            replay=replay_match_polygonal_field,
+            note="heading = yaw of a PolygonalVectorField lookup (optionally + a disturbance with symbolic support); the arguments of the lookup are "
+            "(position,), (another random value,), () or (position, another random value); random values refuse `==`; no exception is allowed",
+            properties=("C08",),
+        ),
+        key=f"{P}:matchPolygonalField[random-arguments]",
+    )
+    reg.trust("random values (matchPolygonalField)", "Distribution.__eq__/__ne__ raise RandomControlFlowError (class-body assignment of _comparisonError); tuple == compares element-wise by identity, then ==; isMethodCall/isFunctionCall abstract")
+
+
+POLYFIELD_ON_PROGRAM = """
+r1 = PolygonalRegion([0@0, 10@0, 10@10, 0@10])
+r2 = PolygonalRegion([10@0, 30@0, 30@10, 10@10])
+vf = PolygonalVectorField("Foo", [[r1.polygons, 0], [r2.polygons, 90 deg]])
+road = PolygonalRegion([0@0, 30@0, 30@10, 0@10], orientation=vf)
+workspace = Workspace(PolygonalRegion([0@0, 10@0, 10@10, 0@10]))
+ego = new Object on road, with width 1, with length 1, with height 1
+"""
+
+
+def replay_match_polygonal_field(inputs, clause):
+    """Real compiler: an object `on` a region oriented by a PolygonalVectorField (3D mode) -- the field is read at the
+    base point, the position is base point + contact offset.  Compiled without and with pruning; then the real matcher
+    on the real heading with each shape of position argument."""
+    import random
+
+    import scenic
+    import scenic.core.pruning as RP
+    import scenic.syntax.translator as T
+
+    old = T.usePruning
+    try:
+        T.usePruning = False
+        random.seed(5)
+        plain = scenic.scenarioFromString(POLYFIELD_ON_PROGRAM, mode2D=False)
+        scene = plain.generate(maxIterations=2000)[0]
+        T.usePruning = True
+        try:
+            scenic.scenarioFromString(POLYFIELD_ON_PROGRAM, mode2D=False)
+        except Exception as e:
+            p = scene.objects[0].position
+            return (
+                f"`new Object on road` with road oriented by a PolygonalVectorField, 3D mode: without pruning the program compiles and generates "
+                f"(ego at {tuple(round(float(c), 2) for c in p)}); with pruning compilation fails with {type(e).__name__}: {e}"
+            )
+    finally:
+        T.usePruning = old
+    ego = plain.objects[0]
+    base_point = ego.position.object  # the PointInRegionDistribution the field is read at
+    for what, pos, want in (("the position (base point + offset)", ego.position, False), ("the base point the field is read at", base_point, True)):
+        try:
+            field, lo, hi = RP.matchPolygonalField(ego.heading, pos)
+        except Exception as e:
+            return f"matchPolygonalField(ego.heading, {what}) raised {type(e).__name__}: {e}"
+        if (field is not None) != want:
+            return f"matchPolygonalField(ego.heading, {what}) returned field {field!r}; the field lookup's argument is {'not ' if not want else ''}that object"
+    return None
+
+
+# =================================================================================================
+# pruneContainment / pruneVisibility with a position that is a FUNCTION of the sampled point
+# (C08: "leaves the program's conditional distribution unchanged ... leaves non-positional properties untouched")
+#
+# `new Object on R` with R oriented: position = p + c.rotatedBy(R.orientation[p]) and parentOrientation = R.orientation[p]
+# for ONE random point p of R.  Pruning replaces "p uniform in R" by "p uniform in a subregion R'".  The scenes stay the
+# same only if every value the program computed from p is computed from the NEW point: after the pass, the point the
+# position is built from, the point the offset is computed from and the point the orientation is read at must be one
+# and the same random draw (and that draw is in R').  The ghost function `denote` below is Samplable.sample: a value is
+# sampled through its `_conditioned` proxy, dependencies are sampled once per scene (memoised under the dependency
+# object itself).  matchInRegion / currentPropValue / unpackWorkspace are the real code (inlined).
+
+
+def register_same_point(reg):
+    from pyvc.interp import ClassVal
+
+    RG = "scenic.core.regions"
+    PIR = lambda: repo_class(f"{RG}:PointInRegionDistribution")
+    VOD = lambda: repo_class("scenic.core.vectors:VectorOperatorDistribution")
+
+    def is_a(v, clsname):
+        return isinstance(v, PObj) and isinstance(v.cls, ClassVal) and v.cls.name == clsname
+
+    def build(I, env, base, log):
+        """The object of `new Object in R` (position = p) or `new Object on R` (position = p + offset(p)), with the
+        orientation R.orientation[p]."""
+        eng = I.eng
+
+        def samplable(cls, tag, **f):
+            o = PObj(cls, tag=tag)
+            o.fields.update(f)
+            o.fields["_conditioned"] = o
+
+            def conditionTo(v, o=o):  # Samplable.conditionTo
+                o.fields["_conditioned"] = v
+                log.append((o, v))
+
+            o.fields["conditionTo"] = BuiltinFn("conditionTo", conditionTo)
+            return o
+
+        has_offset = eng.choose(2, "position = p (`in R`) / p + offset(p) (`on R`, R oriented)") == 1
+        eng.input_syms.append(("position", C.Const(None), "p + offset(p)" if has_offset else "p"))
+        p = samplable(PIR(), "p", region=base)
+        sup3, sup2 = eng.fresh_real("sup|offset|"), eng.fresh_real("sup|(offset.x, offset.y, 0)|")
+        eng.assume(sv_and(compare(">=", sup2, 0), compare("<=", sup2, sup3)))
+
+        def vector(tag, norm_name):
+            v = PObj("Vector", tag=tag)
+            v.fields.update(x=Opaque(tag + ".x"), y=Opaque(tag + ".y"), z=Opaque(tag + ".z"), norm=BuiltinFn("norm", lambda: Opaque(norm_name)))
+            return v
+
+        offset = None
+        position = p
+        if has_offset:
+            offset = vector("offset(p)", "|offset|")
+            offset.read_at = p  # c.rotatedBy(R.orientation[p])
+            position = samplable(VOD(), "p + offset(p)", operator="__add__", object=p, operands=(offset,))
+        reg.constructors["scenic.core.vectors:Vector"] = lambda I2, cls, args, kwargs: vector("offset_2d", "|offset_2d|")
+
+        def support_interval(I2, thing):
+            if isinstance(thing, Opaque) and thing.name == "|offset|":
+                return (0, sup3)
+            if isinstance(thing, Opaque) and thing.name == "|offset_2d|":
+                return (0, sup2)
+            if thing == 0:
+                return (0, 0)
+            return (None, None)
+
+        reg.models["scenic.core.distributions:supportInterval"] = support_interval
+        reg.models["scenic.core.distributions:needsSampling"] = lambda I2, v: False
+        reg.models[f"{RG}:Region.uniformPointIn"] = lambda I2, r: samplable(PIR(), f"point in {r.tag}", region=r)
+
+        def binop(I2, sym, a, b):
+            if sym == "+" and is_a(a, "PointInRegionDistribution") and b is offset:  # VectorDistribution.__add__
+                return samplable(VOD(), f"{a.tag} + offset(p)", operator="__add__", object=a, operands=(b,))
+            raise Exception(f"binary operator {sym} on {a!r}, {b!r} not modelled")
+
+        reg.binop_fallback = binop
+        orientation = PObj("FieldValue", tag="R.orientation[p]")
+        orientation.field, orientation.read_at = base.fields["orientation"], p
+        obj = PObj("Object", tag="obj")
+        obj.fields.update(position=position, parentOrientation=orientation, pitch=0, roll=0, inradius=Opaque("inradius"), planarInradius=Opaque("planarInradius"))
+        env.vars.update(_obj=obj, _p=p, _offset=offset, _position=position, _orientation=orientation)
+        return obj
+
+    def denote(x):
+        """Samplable.sample(x): which primitive random draw(s) a sample of x is made of."""
+        c = x.fields["_conditioned"]
+        if is_a(c, "PointInRegionDistribution"):
+            return ("draw", x, c.fields["region"])  # memoised under x: every user of x in the scene sees this draw
+        if is_a(c, "VectorOperatorDistribution"):
+            off = c.fields["operands"][0]
+            return ("sum", denote(c.fields["object"]), off, denote(off.read_at))
+        return ("?", c)
+
+    def check_same_point(I, env, name, base, allowed_region):
+        eng = I.eng
+        obj, p, offset, orientation = env.vars["_obj"], env.vars["_p"], env.vars["_offset"], env.vars["_orientation"]
+        d = denote(obj.fields["position"])
+        at = denote(orientation.read_at)
+        if offset is None:
+            point = d
+            eng.check(f"{name}#ensures.position_is_still_a_uniform_point_of_a_region", d[0] == "draw")
+        else:
+            ok = d[0] == "sum" and d[1][0] == "draw"
+            eng.check(f"{name}#ensures.position_is_still_a_uniform_point_of_a_region_plus_the_offset", ok and d[2] is offset)
+            if not ok:
+                return
+            point = d[1]
+            # the offset was computed from the sampled point (rotated by the field value THERE): it must follow the point
+            eng.check(f"{name}#ensures.offset_is_computed_from_the_point_the_position_is_built_from", d[3][0] == "draw" and d[3][1] is point[1] and d[3][2] is point[2])
+        if point[0] != "draw":
+            return
+        # non-positional property: the orientation is the field value at the point the object is placed at
+        eng.check(f"{name}#ensures.orientation_is_read_at_the_point_the_position_is_built_from", at[0] == "draw" and at[1] is point[1] and at[2] is point[2])
+        region = point[2]
+        eng.check(f"{name}#ensures.point_drawn_in_the_base_region_or_its_pruned_subregion", region is base or allowed_region(region))
+        eng.check(f"{name}#ensures.pruned_region_keeps_the_preferred_orientation", region.fields.get("orientation") is base.fields["orientation"])
+
+    # ---------------------------------------------------------------- pruneContainment
+    nameC = "pruning.pruneContainment[point-functions]"
+
+    def setupC(I, env):
+        eng = I.eng
+        Poly = repo_class(f"{RG}:PolygonalRegion")
+        log = []
+        field = PObj("VectorField", tag="R.orientation")
+        base = PObj(Poly, tag="R")
+        base.fields.update(orientation=field, dimensionality=2, size=eng.fresh_real("R.size"))
+        container = PObj(Poly, tag="container")
+        container.fields.update(orientation=None, dimensionality=2)
+
+        def buffer(d):
+            r = PObj(Poly, tag="eroded container")
+            r.fields.update(orientation=None, dimensionality=2)
+            r.eroded_from = container
+            return r
+
+        container.fields["buffer"] = BuiltinFn("buffer", buffer)
+
+        def intersect(other):
+            r = PObj(Poly, tag=f"R&{other.tag}")
+            r.fields.update(orientation=None, dimensionality=2)  # a region built by intersection has no orientation of its own
+            r.parts = (base, other)
+            return r
+
+        base.fields["intersect"] = BuiltinFn("intersect", intersect)
+        obj = build(I, env, base, log)
+        minRadius = eng.fresh_real("minRadius")
+        eng.assume(compare(">=", minRadius, 0))
+        sup = reg.models["scenic.core.distributions:supportInterval"]
+        reg.models["scenic.core.distributions:supportInterval"] = lambda I2, t: (minRadius, None) if isinstance(t, Opaque) and t.name in ("inradius", "planarInradius") else sup(I2, t)
+        reg.models[f"{P}:percentagePruned"] = lambda I2, a, b: [None, 50.0][eng.choose(2, "percentage pruned computable?")]
+        scenario = PObj("Scenario", tag="scenario")
+        scenario.fields.update(objects=(obj,), containerOfObject=BuiltinFn("containerOfObject", lambda o: container))
+        env.vars.update(scenario=scenario, verbosity=0, _base=base, _container=container, _log=log)
+
+    def postC(I, env, outcome):
+        if outcome[0] != "return":
+            return
+        base, container = env.vars["_base"], env.vars["_container"]
+
+        def allowed(region):
+            parts = getattr(region, "parts", None)
+            return parts is not None and parts[0] is base and (parts[1] is container or getattr(parts[1], "eroded_from", None) is container)
+
+        I.eng.check(f"{nameC}#ensures.something_was_conditioned", len(env.vars["_log"]) == 1)
+        check_same_point(I, env, nameC, base, allowed)
+
+    reg.add(
+        C.Contract(
+            f"{P}:pruneContainment",
+            params=dict(scenario=C.Const(None), verbosity=C.Const(0)),
+            setup=setupC,
+            post=postC,
+            inline=["matchInRegion", "unpackWorkspace", "currentPropValue"],
+            raises=[C.Raises("InvalidScenarioError", mode="may")],
+            replay=lambda inputs, clause: replay_same_point(inputs, clause, ("containment",)),
+            note="one object `in R` / `on R` (R a polygonal region with a preferred orientation, position = p or p + offset(p), orientation R.orientation[p]) "
+            "with a polygonal container; Samplable.sample modelled by the ghost `denote` (conditioned proxy, dependencies memoised); regions abstract",
+            properties=("C08",),
+        ),
+        key=f"{P}:pruneContainment[point-functions]",
+    )
+
+    # ---------------------------------------------------------------- pruneVisibility
+    nameV = "pruning.pruneVisibility[point-functions]"
+
+    def setupV(I, env):
+        eng = I.eng
+        Poly = repo_class(f"{RG}:PolygonalRegion")
+        log = []
+        field = PObj("VectorField", tag="R.orientation")
+        base = PObj(Poly, tag="R")
+        base.fields.update(orientation=field, dimensionality=2)
+        views = []
+
+        def intersect_of(parts, tag):
+            def intersect(other):
+                r = PObj(Poly, tag=f"{tag}&{other.tag}")
+                r.fields.update(orientation=field, dimensionality=2)  # PolygonalRegion.intersect keeps the orientation of self
+                r.parts = parts + (other,)
+                r.fields["intersect"] = intersect_of(r.parts, r.tag)
+                return r
+
+            return BuiltinFn("intersect", intersect)
+
+        base.fields["intersect"] = intersect_of((base,), "R")
+
+        def view_region(tag):
+            r = PObj("ViewRegion", tag=tag)
+
+            def buf(q, pitch):
+                b = PObj("BufferedRegion", tag=f"{tag} buffered")
+                views.append(b)
+                return b
+
+            r.fields["_bufferOverapproximate"] = BuiltinFn("_bufferOverapproximate", buf)
+            return r
+
+        obj = build(I, env, base, log)
+        radius = eng.fresh_real("obj.radius")
+        eng.assume(compare(">=", radius, 0))
+
+        def other(tag):
+            o = PObj("Object", tag=tag)
+            o.fields.update(requireVisible=False, _observingEntity=None, radius=radius, visibleRegion=view_region(tag + ".visibleRegion"))
+            pos = PObj("PositionDist", tag=tag + ".position")
+            pos.fields["_conditioned"] = pos
+            o.fields["position"] = pos
+            return o
+
+        ego, observer = other("ego"), other("observer")
+        who = eng.choose(3, "requireVisible (seen from the ego) / visible from another observer / both")
+        obj.fields.update(requireVisible=who in (0, 2), _observingEntity=observer if who in (1, 2) else None, radius=radius)
+        reg.models[f"{P}:checkConditionedCycle"] = lambda I2, a, b: False
+        reg.models[f"{P}:percentagePruned"] = lambda I2, a, b: [None, 50.0][eng.choose(2, "percentage pruned computable?")]
+        scenario = PObj("Scenario", tag="scenario")
+        scenario.fields.update(objects=(obj,), egoObject=ego)
+        env.vars.update(scenario=scenario, verbosity=0, _base=base, _views=views, _log=log)
+
+    def postV(I, env, outcome):
+        if outcome[0] != "return":
+            return
+        base, views = env.vars["_base"], env.vars["_views"]
+
+        def allowed(region):
+            parts = getattr(region, "parts", None)
+            return parts is not None and parts[0] is base and len(parts) >= 2 and all(any(q is v for v in views) for q in parts[1:])
+
+        I.eng.check(f"{nameV}#ensures.something_was_conditioned", len(env.vars["_log"]) == 1)
+        check_same_point(I, env, nameV, base, allowed)
+
+    reg.add(
+        C.Contract(
+            f"{P}:pruneVisibility",
+            params=dict(scenario=C.Const(None), verbosity=C.Const(0)),
+            setup=setupV,
+            post=postV,
+            inline=["matchInRegion", "unpackWorkspace", "currentPropValue"],
+            raises=[C.Raises("InvalidScenarioError", mode="may")],
+            replay=lambda inputs, clause: replay_same_point(inputs, clause, ("visibility",)),
+            note="one object with position = p or p + offset(p) and orientation R.orientation[p] (R polygonal with a preferred orientation) that must be visible "
+            "from the ego, from another observer, or both; Samplable.sample modelled by the ghost `denote`; regions and view regions abstract; no conditioning cycle",
+            properties=("C08",),
+        ),
+        key=f"{P}:pruneVisibility[point-functions]",
+    )
+    # ---------------------------------------------------------------- prune: the passes one after the other
+    nameP = "pruning.prune[point-functions]"
+
+    def setupP(I, env):
+        eng = I.eng
+        Poly = repo_class(f"{RG}:PolygonalRegion")
+        log = []
+        field = PObj("VectorField", tag="R.orientation")
+        base = PObj(Poly, tag="R")
+        base.fields.update(orientation=field, dimensionality=2)
+        container = PObj(Poly, tag="container")
+        container.fields.update(orientation=None, dimensionality=2)
+        views = []
+
+        def intersect_of(parts, tag):
+            def intersect(other):
+                r = PObj(Poly, tag=f"{tag}&{other.tag}")
+                # first intersection: no orientation of its own (the pass restores it); later ones keep the receiver's
+                r.fields.update(orientation=None if len(parts) == 1 else field, dimensionality=2)
+                r.parts = parts + (other,)
+                r.fields["intersect"] = intersect_of(r.parts, r.tag)
+                return r
+
+            return BuiltinFn("intersect", intersect)
+
+        base.fields["intersect"] = intersect_of((base,), "R")
+
+        def view_region(tag):
+            r = PObj("ViewRegion", tag=tag)
+
+            def buf(q, pitch):
+                b = PObj("BufferedRegion", tag=f"{tag} buffered")
+                views.append(b)
+                return b
+
+            r.fields["_bufferOverapproximate"] = BuiltinFn("_bufferOverapproximate", buf)
+            return r
+
+        obj = build(I, env, base, log)
+        radius = eng.fresh_real("obj.radius")
+        eng.assume(compare(">=", radius, 0))
+        sup = reg.models["scenic.core.distributions:supportInterval"]
+        reg.models["scenic.core.distributions:supportInterval"] = lambda I2, t: (None, None) if isinstance(t, Opaque) and t.name in ("inradius", "planarInradius") else sup(I2, t)
+        ego = PObj("Object", tag="ego")
+        egopos = PObj("PositionDist", tag="ego.position")
+        egopos.fields["_conditioned"] = egopos
+        ego.fields.update(requireVisible=False, _observingEntity=None, radius=radius, visibleRegion=view_region("ego.visibleRegion"), position=egopos, heading=Opaque("ego.heading"), _relations=())
+        obj.fields.update(requireVisible=True, _observingEntity=None, radius=radius, heading=Opaque("obj.heading"), _relations=())
+        reg.models[f"{P}:matchPolygonalField"] = lambda I2, heading, position: (None, 0, 0)
+        reg.models[f"{P}:checkConditionedCycle"] = lambda I2, a, b: False
+        reg.models[f"{P}:percentagePruned"] = lambda I2, a, b: 50.0
+        scenario = PObj("Scenario", tag="scenario")
+        scenario.fields.update(objects=(obj,), egoObject=ego, containerOfObject=BuiltinFn("containerOfObject", lambda o: container))
+        env.vars.update(scenario=scenario, verbosity=0, _base=base, _container=container, _views=views, _log=log)
+
+    def postP(I, env, outcome):
+        if outcome[0] != "return":
+            return
+        base, container, views = env.vars["_base"], env.vars["_container"], env.vars["_views"]
+
+        def allowed(region):
+            parts = getattr(region, "parts", None)
+            return parts is not None and parts[0] is base and len(parts) >= 2 and all(q is container or any(q is v for v in views) for q in parts[1:])
+
+        check_same_point(I, env, nameP, base, allowed)
+        # both passes pruned (percentage 50): the point is finally drawn in R & container & buffered view of the ego
+        d = denote(env.vars["_obj"].fields["position"])
+        point = d if d[0] == "draw" else d[1]
+        parts = getattr(point[2], "parts", ()) if point[0] == "draw" else ()
+        I.eng.check(f"{nameP}#ensures.later_passes_keep_what_earlier_passes_pruned", len(parts) == 3 and parts[0] is base and parts[1] is container and len(views) == 1 and parts[2] is views[0])
+
+    reg.add(
+        C.Contract(
+            f"{P}:prune",
+            params=dict(scenario=C.Const(None), verbosity=C.Const(0)),
+            setup=setupP,
+            post=postP,
+            inline=["pruneContainment", "pruneRelativeHeading", "pruneVisibility", "matchInRegion", "unpackWorkspace", "currentPropValue"],
+            raises=[C.Raises("InvalidScenarioError", mode="may")],
+            replay=replay_same_point,
+            note="containment, relative-heading and visibility pruning in sequence on one object with position = p or p + offset(p), orientation R.orientation[p], "
+            "a polygonal container and requireVisible; both region passes prune (50%); heading not aligned to a polygonal field",
+            properties=("C08",),
+        ),
+        key=f"{P}:prune[point-functions]",
+    )
+    reg.trust("sampling (pruning of point functions)", "Samplable.sample samples a value through its _conditioned proxy and every dependency once per scene (memoised under the dependency object); PolygonalRegion.intersect keeps the orientation of its receiver; uniformPointIn(r) is a PointInRegionDistribution over r")
+
+
+ON_ORIENTED_PROGRAM = """
+vf = VectorField("Foo", lambda pos: 0 if pos.x < 10 else 90 deg)
+road = PolygonalRegion([0@0, 30@0, 30@10, 0@10], orientation=vf)
+workspace = Workspace(PolygonalRegion([0@0, 10@0, 10@10, 0@10]))
+ego = new Object on road, with width 1, with length 1, with height 1
+"""
+
+SHARED_POINT_VISIBLE_PROGRAM = """
+vf = VectorField("Foo", lambda pos: 0 if pos.x < 10 else 90 deg)
+road = PolygonalRegion([0@0, 30@0, 30@10, 0@10])
+ego = new Object at (3, 5, 0.5), with visibleDistance 4, with viewAngles (360 deg, 180 deg), with width 1, with length 1, with height 1, with allowCollisions True
+spot = new Point in road
+other = new Object at spot.position + Vector(0, 0, 0.5), with parentOrientation vf[spot.position], with requireVisible True, with width 1, with length 1, with height 1, with allowCollisions True
+"""
+
+
+def replay_same_point(inputs, clause, passes=("containment", "visibility")):
+    """Real compiler, real generation: the orientation of every generated object must be the field value at the point
+    the object stands on -- with pruning exactly as without.  Containment pruning: `new Object on road` (road oriented,
+    workspace = the first third of the road).  Visibility pruning: position and orientation written as functions of one
+    explicitly shared point, the object must be visible from an ego that sees 4 m."""
+    import math
+    import random
+
+    import scenic
+    import scenic.syntax.translator as T
+
+    def mismatches(src, k, pruning, n=30):
+        old = T.usePruning
+        try:
+            T.usePruning = pruning
+            random.seed(11)
+            sc = scenic.scenarioFromString(src, mode2D=False)
+        finally:
+            T.usePruning = old
+        bad = []
+        for _ in range(n):
+            o = sc.generate(maxIterations=5000)[0].objects[k]
+            want = 0.0 if o.position.x < 10 else math.pi / 2
+            if abs(float(o.orientation.yaw) - want) > 1e-6:
+                bad.append((tuple(round(float(c), 2) for c in o.position), round(float(o.orientation.yaw), 4), want))
+        return bad, sc.objects[k]
+
+    for what, src, k in (("containment", ON_ORIENTED_PROGRAM, 0), ("visibility", SHARED_POINT_VISIBLE_PROGRAM, 1)):
+        if what not in passes:
+            continue
+        plain, _ = mismatches(src, k, False)
+        pruned, obj = mismatches(src, k, True)
+        if pruned and not plain:
+            pos, yaw, want = pruned[0]
+            return (
+                f"{what} pruning, program:{src}without pruning 0 of 30 generated scenes have an orientation different from the field value at the object's base point; "
+                f"with pruning {len(pruned)} of 30, e.g. position {pos} with yaw {yaw} although the field value there is {want} "
+                f"(position conditioned to {obj.position._conditioned}: the orientation is still read at the point drawn in the unpruned region)"
             )
     return None
